@@ -31,7 +31,11 @@ Vec2 == IF Tier = "quick" THEN Vec2Quick ELSE Vec2Full
 \* (x, y, z) with rho and mag rational where possible
 Vec3Quick == { V3(3, 4, 12), V3(-9, 12, -20), V3(12, -16, 15), V3(-8, -6, 0),
                V3(0, 0, 1), V3(0, 0, -2), V3(1, 0, 0), V3(0, 0, 0),
-               V3(1, 2, 3), V3(-2, 1, -1), <<R(1, 8), I(0), I(1)>>, <<I(-2), R(-1, 512), R(1, 512)>> }
+               V3(1, 2, 3), V3(-2, 1, -1), <<R(1, 8), I(0), I(1)>>, <<I(-2), R(-1, 512), R(1, 512)>>,
+               \* exactly antiparallel to (1, 2, 3) with an irrational norm: the cosine of the angle is -1 up to rounding
+               V3(-1, -2, -3),
+               \* antiparallel pairs whose computed cosine falls below -1 by one rounding (float64: (3,2,0); 60 digits: (3,3,3))
+               V3(3, 2, 0), V3(-3, -2, 0), V3(3, 3, 3), V3(-3, -3, -3) }
 Vec3Full  == Vec3Quick \cup
              { V3(-3, -4, 12), V3(4, -3, -12), V3(0, 1, 0), V3(0, -5, 12), V3(1, 1, 1),
                V3(2, -3, 6), V3(-1, 2, 2), V3(8, 15, 0), V3(5, 0, -12), V3(-1, -1, 0),
